@@ -118,3 +118,13 @@ func VerifTokenize(cmd string) ([]string, error) {
 func VerifRPN(cmd string) ([]string, error) {
 	return newBuffer([]byte(cmd)).rpn()
 }
+
+// VerifUnquote exposes unquote().
+func VerifUnquote(s []byte, border byte) (string, bool) {
+	return unquote(s, border)
+}
+
+// VerifQuote exposes quoteString(s, true).
+func VerifQuote(s string) []byte {
+	return quoteString(s, true)
+}
